@@ -933,3 +933,130 @@ def _(mod):
     def ed(n):
         return [parse_stmt("end = self.length"), parse_stmt("self.maximum_data = decode_variable_length_int(payload[1:end])")]
     return edit_first(f, is_assign_to("self.maximum_data"), ed)
+
+
+# ------------------------------------------------------------------ rules added after the seeded rounds
+@variant("c01-etm-mac-after-decrypt", "break", ["C01"], DEC, "A5", "mac-position", "encrypt-then-MAC: MAC no longer removed from the ciphertext in the TLS 1.1/1.2 CBC method")
+def _(mod):
+    f = get_func(mod, "Decryptor.decrypt_tls12_block_cipher")
+    def pred(n):
+        return isinstance(n, ast.If) and ast.unparse(n.test) == "self.encrypt_then_mac"
+    return edit_first(f, pred, lambda n: None)
+
+
+@variant("c01-overlap-first-only", "break", ["C01", "C07"], SES, "FS", "packet_ranges", "record attributed to the first overlapping packet only")
+def _(mod):
+    f = get_func(mod, "Session.extract_server_buf")
+    def pred(n):
+        return isinstance(n, ast.Expr) and ast.unparse(n) == "metadata.append(packet_range[2])"
+    def ed(n):
+        return [n, ast.Break()]
+    return edit_first(f, pred, ed)
+
+
+@variant("c15-secret-scan-break", "break", ["C15"], KD, "FS", "secret_list", "TLS 1.3 secret scan stops after the first application secret")
+def _(mod):
+    f = get_func(mod, "dev_tls_13_keys")
+    def pred(n):
+        return isinstance(n, ast.Assign) and ast.unparse(n.targets[0]) == "client_application_iv"
+    def ed(n):
+        return [n, ast.Break()]
+    return edit_first(f, pred, ed)
+
+
+@variant("c02-remove-while-iterating", "break", ["C02"], QTP, "ITER", "mutates-iterated", "CRYPTO buffer iterated directly again while frames are removed")
+def _(mod):
+    f = get_func(mod, "QuicTlsSession.update_session")
+    def pred(n):
+        return isinstance(n, ast.For) and isinstance(n.iter, ast.Call) and ast.unparse(n.iter.func) == "list"
+    def ed(n):
+        n.iter = n.iter.args[0]
+        return n
+    return edit_first(f, pred, ed)
+
+
+@variant("c03-reset-rebinds-sets", "break", ["C03", "C02", "C04"], QS, "KIND", "attribute-kinds", "Retry handling calls reset(), which re-creates the CID sets as lists")
+def _(mod):
+    f = get_func(mod, "QuicSession.handle_quic_packet")
+    def pred(n):
+        return isinstance(n, ast.If) and "RETRY" in ast.unparse(n.test)
+    def ed(n):
+        n.body = [parse_stmt("self.reset()")]
+        return n
+    return edit_first(f, pred, ed)
+
+
+@variant("c11-udp-zero-rule-dropped", "break", ["C11"], CHK, "UDPZ", "zero-is-ones", "RFC 768 zero→0xffff mapping removed")
+def _(mod):
+    f = get_func(mod, "calculate_checksum_udp")
+    def pred(n):
+        return isinstance(n, ast.If) and "calculated_checksum ==" in ast.unparse(n.test)
+    return edit_first(f, pred, lambda n: None)
+
+
+@variant("c09-dsb-only-without-file", "break", ["C09"], MAIN, "E2b", "dsb-branch", "DSB secrets used only when no -s file is given")
+def _(mod):
+    f = get_func(mod, "run")
+    def pred(n):
+        return isinstance(n, ast.Expr) and "get_keys_from_string" in ast.unparse(n)
+    def ed(n):
+        return ast.If(test=parse_expr("args.sslkeylog is None"), body=[n], orelse=[])
+    return edit_first(f, pred, ed)
+
+
+@variant("c04-secret-scan-break", "break", ["C04", "C09"], SES, "D7", "full-scan", "secret scan stops at the first foreign line after a match")
+def _(mod):
+    f = get_func(mod, "Session.find_session_secrets")
+    def pred(n):
+        return isinstance(n, ast.If) and "client_random" in ast.unparse(n.test)
+    def ed(n):
+        n.orelse = [ast.If(test=parse_expr("secrets"), body=[ast.Break()], orelse=[])]
+        return n
+    return edit_first(f, pred, ed)
+
+
+@variant("c16-spaces-reset-on-retry", "break", ["C16", "C02"], QS, "PNS", "callers", "Retry re-initialises the largest-packet-number tables")
+def _(mod):
+    f = get_func(mod, "QuicSession.handle_quic_packet")
+    def pred(n):
+        return isinstance(n, ast.If) and "RETRY" in ast.unparse(n.test)
+    def ed(n):
+        n.body.append(parse_stmt("self.set_packet_number_spaces()"))
+        return n
+    return edit_first(f, pred, ed)
+
+
+@variant("c12-dsb-always-le", "break", ["C12", "C09"], DSB, "E3", "block-class:PCAPNG_BT_DSB", "DSB always parsed little-endian")
+def _(mod):
+    f = get_func(mod, "Reader.__iter__")
+    def pred(n):
+        return isinstance(n, ast.IfExp) and "DecryptionSecretBlockLE" in ast.unparse(n.body)
+    return edit_first(f, pred, lambda n: n.body)
+
+
+@variant("c10-preserve-flag-spelling", "preserve", ["C10"], OB, desc="`keep_original_ports is False` written as `not keep_original_ports`")
+def _(mod):
+    f = get_func(mod, "OutputBuilder.__init__")
+    def pred(n):
+        return isinstance(n, ast.If) and "keep_original_ports" in ast.unparse(n.test)
+    def ed(n):
+        n.test = parse_expr("not keep_original_ports")
+        return n
+    return edit_first(f, pred, ed)
+
+
+@variant("c05-preserve-notin", "preserve", ["C05", "C01"], SES, desc="dedupe written as `if seq not in seen: record; buffer` instead of an early return")
+def _(mod):
+    f = get_func(mod, "Session.handle_packet")
+    top = next(n for n in f.body if isinstance(n, ast.If) and "server_ip" in ast.unparse(n.test))
+    done = 0
+    for arm in (top.body, top.orelse):
+        guard = next((n for n in arm if isinstance(n, ast.If) and " in self.seen_packets_" in ast.unparse(n.test)), None)
+        if guard is None:
+            continue
+        i = arm.index(guard)
+        rest = arm[i + 1:]
+        new = ast.If(test=ast.Compare(left=guard.test.left, ops=[ast.NotIn()], comparators=guard.test.comparators), body=rest, orelse=[])
+        arm[i:] = [new]
+        done += 1
+    return done == 2
